@@ -22,6 +22,7 @@ var propRunners = map[string]func(c *Checker){
 	"C19": runC19,
 	"C20": runC20,
 	"C03": runC03,
+	"C02": runC02,
 }
 
 func runProperty(P *Program, prop, tier, evid string) int {
